@@ -23,10 +23,13 @@ struct sqfs_dir_entry_t;
 struct sqfs_dir_entry_t *g_dr_node[DR_N + 1];
 size_t g_dr_pre[DR_N + 1];
 size_t g_dr_n, g_dr_w, g_dr_size0;
+uint64_t g_dr_wref; /* fields of the witness node */
+uint32_t g_dr_wnum;
 
 #include "lib/sqfs/src/dir_writer.c"
 
-static struct { sqfs_dir_entry_t e; char name[8]; } nodes[DR_N];
+typedef struct { sqfs_dir_entry_t e; char name[8]; } dr_node_t;
+static dr_node_t *nodes[DR_N]; /* one typed object per list node */
 
 void harness(void)
 {
@@ -39,21 +42,27 @@ void harness(void)
 
 	g_dr_pre[0] = 0;
 	for (i = 0; i < DR_N; ++i) {
-		nodes[i].e.inode_ref = verif_nd_u64("ref");
-		nodes[i].e.inode_num = verif_nd_u32("num");
-		nodes[i].e.type = verif_nd_u16("type");
-		nodes[i].e.name_len = verif_nd_size("len");
-		VERIF_ASSUME(nodes[i].e.name_len >= 1 &&
-			     nodes[i].e.name_len <= ((size_t)1 << 40));
-		g_dr_node[i] = i < g_dr_n ? &nodes[i].e : NULL;
+		nodes[i] = malloc(sizeof(dr_node_t));
+		VERIF_ASSUME(nodes[i] != NULL);
+		nodes[i]->e.inode_ref = verif_nd_u64("ref");
+		nodes[i]->e.inode_num = verif_nd_u32("num");
+		nodes[i]->e.type = verif_nd_u16("type");
+		nodes[i]->e.name_len = verif_nd_size("len");
+		VERIF_ASSUME(nodes[i]->e.name_len >= 1 &&
+			     nodes[i]->e.name_len <= ((size_t)1 << 40));
+		g_dr_node[i] = i < g_dr_n ? &nodes[i]->e : NULL;
+		if (i == g_dr_w) {
+			g_dr_wref = nodes[i]->e.inode_ref;
+			g_dr_wnum = nodes[i]->e.inode_num;
+		}
 		g_dr_pre[i + 1] = g_dr_pre[i] + sizeof(sqfs_dir_node_t) +
-			nodes[i].e.name_len;
+			nodes[i]->e.name_len;
 	}
 	g_dr_node[DR_N] = NULL;
 	for (i = 0; i + 1 < DR_N; ++i)
-		nodes[i].e.next = g_dr_node[i + 1];
+		nodes[i]->e.next = g_dr_node[i + 1];
 	/* node 256 is never followed: its next pointer is arbitrary */
-	nodes[DR_N - 1].e.next = verif_nd_bool("more") ? &nodes[0].e : NULL;
+	nodes[DR_N - 1]->e.next = verif_nd_bool("more") ? &nodes[0]->e : NULL;
 
 	g_dr_size0 = ((size_t)offset + sizeof(sqfs_dir_header_t)) %
 		SQFS_META_BLOCK_SIZE;
@@ -63,14 +72,14 @@ void harness(void)
 	VERIF_ASSERT(c <= 256 && c <= g_dr_n && (g_dr_n == 0 || c >= 1),
 		     "C03.dir.run_limits.count");
 	if (g_dr_w < c) {
-		sqfs_u32 d = nodes[g_dr_w].e.inode_num - nodes[0].e.inode_num;
+		sqfs_u32 d = nodes[g_dr_w]->e.inode_num - nodes[0]->e.inode_num;
 		sqfs_s16 d16 = (sqfs_s16)(sqfs_u16)d;
 
-		VERIF_ASSERT((nodes[g_dr_w].e.inode_ref >> 16) ==
-			     (nodes[0].e.inode_ref >> 16),
+		VERIF_ASSERT((nodes[g_dr_w]->e.inode_ref >> 16) ==
+			     (nodes[0]->e.inode_ref >> 16),
 			     "C03.dir.run_limits.same_block");
-		VERIF_ASSERT(nodes[0].e.inode_num + (sqfs_u32)(sqfs_s32)d16 ==
-			     nodes[g_dr_w].e.inode_num && d16 != -32768,
+		VERIF_ASSERT(nodes[0]->e.inode_num + (sqfs_u32)(sqfs_s32)d16 ==
+			     nodes[g_dr_w]->e.inode_num && d16 != -32768,
 			     "C03.dir.run_limits.delta_fits");
 	}
 	if (c >= 2)
@@ -82,5 +91,5 @@ void harness(void)
 	VERIF_COVER(c == 3 && g_dr_n == 3);
 	VERIF_COVER(c == 0);
 	VERIF_COVER(c >= 2 && g_dr_w == c - 1 &&
-		    nodes[g_dr_w].e.inode_num < nodes[0].e.inode_num);
+		    nodes[g_dr_w]->e.inode_num < nodes[0]->e.inode_num);
 }
